@@ -22,7 +22,7 @@ def run(ctx):
     ctx.lean_proofs("Props.C06")
     build_driver_lib(ctx)
     ctx.rule("c06: per history 1-4 IAVL substores and 0-2 transient substores (names sharing prefixes), 1-6 blocks of 0-8 writes "
-             "(1/3 transient, 1/4 deletes) over a colliding key alphabet; per block the persistent writes go directly, through CacheMultiStore()+Write() or through a nested cache wrap (same route in all twins), the transient writes by a route drawn per run and block, and a never-written-back cache wrap is filled with junk in 1/3 of the blocks; after every commit every transient key written in the block is read back (directly and through a fresh cache wrap) and the store is iterated; 5 twin runs: full / transient writes removed / no transient "
+             "(1/3 transient, 1/4 deletes) over a colliding key alphabet; per block the persistent writes go directly, through CacheMultiStore()+Write() or through a nested cache wrap (same route in all twins), the transient writes by a route drawn per run and block, and a never-written-back cache wrap is filled with junk in 1/3 of the blocks; after every commit every transient key written in the block is read back (directly and through a fresh cache wrap) and the store is iterated; after half of the commits historical views (LoadLazyVersion, CacheMultiStoreWithVersion at a random retained height) are opened and Get/Set/Delete/iteration on transient keys are tried through them under recover(); the live transient stores are read back before the next block; 5 twin runs: full / transient writes removed / no transient "
              "store mounted / reversed mount order + extra transient writes / one extra persistent write in a random block; "
              "non-trivial = write or commit line (distinct line)")
     ctx.trust("tendermint merkle.SimpleHashFromMap and tmhash are re-implemented in the model/driver (Sha256.lean, executable only) and compared with the real hash on every commit")
